@@ -237,6 +237,10 @@ def build_records(tier, rng):
         phcls = phasespace.PhaseSpaceFactor if ph == "default" else getattr(phasespace, ph)
         if conv:
             builder = getattr(bmod, conv)
+        elif rng.random() < 0.5:
+            # the builder's options are public attributes: configure a default builder by assignment (read at call time)
+            builder = bmod.RelativisticBreitWignerBuilder()
+            builder.form_factor, builder.energy_dependent_width, builder.phsp_factor = bool(ff), bool(edw), phcls
         elif ph == "default":
             builder = bmod.RelativisticBreitWignerBuilder(form_factor=bool(ff), energy_dependent_width=bool(edw))
         else:
